@@ -126,6 +126,9 @@ int run(Handler handle)
     alarm(0);
     std::fputs(r.c_str(), stdout);
     std::fputc('\n', stdout);
+    // one write per result line: a sanitizer abort in the next operation must not lose finished results
+    // (the death callback is not invoked on every abort path)
+    std::fflush(stdout);
   }
   std::fflush(stdout);
   return 0;
